@@ -141,14 +141,16 @@ Proof. exact cursor_spec. Qed.
 
 (* ---- afterwards the service still converges (composition with C06): the store after the event is the store from before the
    forbidden header; whenever that is a prefix store of an honest chain C, a manager on it catches up with an honest peer.
-   _partial: proved for a manager started on that store (C06_catchup_linear); for the RUNNING manager with other peers around
-   convergence is C06's unproved multi-peer part (the correspondence check exercises it: families forb+honest, cpbad+honest) ---- *)
+   _partial: proved for a manager started on that store (C06_catchup_linear, checkpoints enabled or disabled); for the RUNNING
+   manager the invariant of catchup_linear (exactly one peer object and one peerStates entry, request filter state tied to
+   the tip) does not hold after a ban - the dropped peer's object and possibly other peers remain - so convergence there is
+   C06's unproved multi-peer part (the correspondence check exercises it: families forb+honest, cpbad+honest) ---- *)
 Theorem C07_contained_then_converges_partial : forall cfg st p c o pre h post s1 rc1 fin1 gid C q cap res k hints fuel,
   no_forb (c_forb cfg) (d_store st) ->
   aget p (d_states st) = Some c -> d_hfm st = true -> aget p (d_objs st) = Some o -> po_conn o = true ->
   hloop (c_forb cfg) (d_next st) (d_store st) false None pre = HDone s1 rc1 fin1 ->
   memN (s_id h) (c_forb cfg) = true ->
-  c_disable cfg = false -> good_chain (c_forb cfg) gid C -> cps_ok gid C (c_cps cfg) -> sorted (c_cps cfg) ->
+  good_chain (c_forb cfg) gid C -> cps_ok gid C (eff_cps cfg) -> sorted (eff_cps cfg) ->
   (1 <= cap)%nat -> (k <= length C)%nat -> Good gid C k s1 -> (length C - k + 1 <= fuel)%nat ->
   exists st', on_headers cfg st p (pre ++ h :: post) = (st', [Ban p; Disconnect p]) /\
   exists y1 t1 y2 t2,
